@@ -78,6 +78,12 @@ func c07(p *core.Prog, r *core.Report) {
 	// (canClose): a count that is not decremented exactly once per finished
 	// relayed call keeps the connection in a closing state forever.
 	r.Rule("C07-R7", "E6 who-may-call/paths", 6, "relay pending count (drain predicate input) is balanced")
+	// results of calls accepted before Close are delivered: the writer drains
+	// its queue before it closes the socket (shared with C10-R2)
+	r.Rule("C07-R8", "E6 paths", 1, "the writer drains queued frames before closing the socket (shared with C10)")
+	r.Alias("C10-R2", "C07-R8")
+	c10WriterDrains(p, r)
+	r.Alias("C10-R2", "")
 	channelTracksOnlyOpen(p, r, "C07-R5")
 	// in-flight calls complete while closing: an error answer is queued before the call's exchange is completed
 	errorFrameBeforeCompletion(p, r, "C07-R4")
@@ -415,7 +421,36 @@ func edgeFacts(pred, succ *ssa.BasicBlock) facts {
 // ---------------------------------------------------------------------------
 // R3 closed signalled once
 
+// c07StateAfterRemoval: the close-state callback decides "is the channel
+// closing?" from a state read taken after it removed the closed connection
+// from the table. A read taken before lets a Close() slip in between: Close
+// sees the dead connection still listed and leaves the final transition to
+// this callback, which then returns early on its stale "not closing".
+func c07StateAfterRemoval(p *core.Prog, r *core.Report) {
+	f := mustFunc(p, r, "", "Channel", "connectionCloseStateChange")
+	if f == nil {
+		return
+	}
+	rm := core.CallsIn(f, "Channel.removeClosedConn")
+	st := core.CallsIn(f, "Channel.State")
+	if len(rm) == 0 || len(st) == 0 {
+		// restructured (inlined removal, state read through a helper): not judged here
+		return
+	}
+	for k, s := range st {
+		ok := false
+		for _, m := range rm {
+			if before(m, s) {
+				ok = true
+			}
+		}
+		r.Check(ok, "C07-R2", fname(f), fmt.Sprintf("channel state read #%d follows the removal of the closed connection", k+1), p.Pos(s.Pos()),
+			"removeClosedConn dominates the State() read", "the channel state is read before the closed connection is removed from the table: a Close() in between leaves the channel in start-close for ever (Close waits for this callback, the callback returns on its stale 'not closing')")
+	}
+}
+
 func c07Signals(p *core.Prog, r *core.Report) {
+	c07StateAfterRemoval(p, r)
 	// (a) close(ch.closed) only in onClosed
 	closedFld := mustField(p, r, "", "Channel", "closed")
 	stopFld := mustField(p, r, "", "Connection", "stopCh")
@@ -734,14 +769,7 @@ func refusalOrder(p *core.Prog, r *core.Report, rule string) {
 	d := p.NewDomain("", "connectionState")
 	active := d.OfName("connectionActive")
 	nonActive := d.Declared() &^ active
-	isSendClosed := func(i ssa.Instruction) bool {
-		c, ok := core.IsCall(i, "Connection.SendSystemError")
-		if !ok {
-			return false
-		}
-		args := core.CallArgs(c)
-		return len(args) == 4 && loadsGlobal(args[3], "ErrChannelClosed")
-	}
+	isSendClosed := func(i ssa.Instruction) bool { return sendsClosedRefusal(p, i, 0) }
 	// the refusal frame goes out before anything that can re-evaluate the
 	// close state: once the last exchange is removed the connection may
 	// close and SendSystemError on a closed connection drops the frame.
@@ -836,19 +864,40 @@ func errorFrameQueuedUnlessClosed(p *core.Prog, r *core.Report, rule string) {
 	}
 }
 
+// sendsClosedRefusal: i sends the declined "closed channel" error frame:
+// SendSystemError(…, ErrChannelClosed) itself, or a call of a helper of the
+// analysed packages every path of which does.
+func sendsClosedRefusal(p *core.Prog, i ssa.Instruction, depth int) bool {
+	if c, ok := core.IsCall(i, "Connection.SendSystemError"); ok {
+		args := core.CallArgs(c)
+		return len(args) == 4 && loadsGlobal(args[3], "ErrChannelClosed")
+	}
+	c, ok := i.(*ssa.Call)
+	if !ok || depth > 1 {
+		return false
+	}
+	g := c.Call.StaticCallee()
+	if g == nil || g.Blocks == nil || !p.InAnalysed(g) {
+		return false
+	}
+	any := false
+	core.EachInstr(g, func(j ssa.Instruction) {
+		if sendsClosedRefusal(p, j, depth+1) {
+			any = true
+		}
+	})
+	if !any {
+		return false
+	}
+	return !core.ReachAvoiding(g, nil, core.IsReturn, func(j ssa.Instruction) bool { return sendsClosedRefusal(p, j, depth+1) }, nil).Found
+}
+
 func c07Admission(p *core.Prog, r *core.Report) {
 	d := p.NewDomain("", "connectionState")
 	active := d.OfName("connectionActive")
 	nonActive := d.Declared() &^ active
 
-	isSendClosed := func(i ssa.Instruction) bool {
-		c, ok := core.IsCall(i, "Connection.SendSystemError")
-		if !ok {
-			return false
-		}
-		args := core.CallArgs(c)
-		return len(args) == 4 && loadsGlobal(args[3], "ErrChannelClosed")
-	}
+	isSendClosed := func(i ssa.Instruction) bool { return sendsClosedRefusal(p, i, 0) }
 
 	// R4: Connection.handleCallReq
 	if f := mustFunc(p, r, "", "Connection", "handleCallReq"); f != nil {
